@@ -83,10 +83,6 @@ def _dirty(shape):
 VARIANT = os.environ.get("C18_VARIANT", "asis")
 _PATCHED = {"patched": True} if VARIANT == "patched" else {}
 
-# a mutant of the self-test is active: cases in which the MODEL already predicts the known defect D10
-# are left out of the kill count (otherwise every mutant would count as killed by them)
-_SELFTEST = {"active": False}
-
 
 class C18(Prop):
     PID = "C18"
@@ -99,7 +95,11 @@ class C18(Prop):
             "second stream with arbitrary floats), every block total between the chromosome count and the marker "
             "count, 0/1 genotypes of 2-5 taxa x 1-4 phases, signed power-of-two / dyadic / float effects for 1-3 "
             "traits, parent tuples of size 1-3 with and without repeated parents, direct haplobin / "
-            "haplobin_bounds calls with arbitrary block counts and label vectors.  Non-trivial = pipeline case "
+            "haplobin_bounds calls with arbitrary block counts and label vectors; mutate-then-requery sequences on ONE "
+            "OPV / OHV / GB problem object (build from data A, evaluate, assign the matrices of data B -- other "
+            "effects, genotypes and possibly ploidy, other nbestfndr -- through the public setters, evaluate, put A "
+            "back, evaluate), Spec on every answer recomputed from the data current at that time.  Non-trivial = "
+            "requery case whose second answer differs from the first, or pipeline case "
             "with more blocks than chromosomes, >= 2 taxa and >= 2 markers on some chromosome")
     TRUSTED = ["numpy.linspace / dot / max / sort / argmin as modelled in Model/Haplo.lean (linspace: endpoints exact, "
                "interior points a + j*((b-a)/n); the labels are also checked against the model run on numpy's own "
@@ -218,6 +218,9 @@ class C18(Prop):
         out.append(self._mk(rng, [[F(0), F(1), F(2)], [F(0), F(1), F(2)]], 3, ntaxa=3, ntrait=1, ustyle="pow2"))
         # rejected: fewer blocks than chromosomes
         out.append(self._mk(rng, [[F(0), F(1)], [F(0), F(1)]], 1, ntaxa=2, ntrait=1, kind="reject"))
+        # mutate-then-requery on one problem object (a stale cache behind the public setters would show here)
+        out.append(self._mk_requery(rng, [[F(i) for i in range(5)]], 4))
+        out.append(self._mk_requery(rng, [[F(0), F(1), F(2)], [F(5), F(6)]], 3))
         # direct calls
         out.append({"kind": "haplobin", "float": False, "nblk": [3], "genpos": [0, 1, 2, 3, 4, 5, 6], "chr_sizes": [7]})
         out.append({"kind": "haplobin", "float": False, "nblk": [2, 1, 2], "chr_sizes": [7, 4, 6],
@@ -263,6 +266,11 @@ class C18(Prop):
             if r < 0.20 and nchr >= 2:
                 out.append(self._mk(rng, chroms, rng.randint(0, nchr - 1), kind="reject", isfloat=isfloat))
                 continue
+            if r < 0.34:
+                c = self._mk_requery(rng)
+                if c is not None:
+                    out.append(c)
+                continue
             nh = rng.randint(nchr, p)
             if rng.random() < 0.3:
                 nh = rng.choice([nchr, min(p, nchr + 1), p])
@@ -277,6 +285,31 @@ class C18(Prop):
             ploidy = rng.choice([2, 2, 2, 2, 1, 3, 4])
             out.append(self._mk(rng, chroms, nh, ploidy=ploidy, isfloat=isfloat))
         return out
+
+    def _mk_requery(self, rng, chroms=None, nh=None):
+        """a layout without empty equal-width bin (exact arithmetic styles only), two data sets A and B on it"""
+        for _ in range(40):
+            if chroms is None:
+                cs, _ = self._layout_case(rng, style=rng.choice(["even", "even", "int", "tie"]))
+                n_ = rng.randint(len(cs), sum(len(c) for c in cs))
+            else:
+                cs, n_ = chroms, nh
+            nb = self._apportion_exact(n_, [c[-1] - c[0] for c in cs])
+            if any(b > len(c) for b, c in zip(nb, cs)) or self._has_empty_bin_exact(cs, nb):
+                if chroms is not None:
+                    return None
+                continue
+            ploidy = rng.choice([2, 2, 2, 1, 3, 4])
+            c = self._mk(rng, cs, n_, ploidy=ploidy, kind="requery")
+            ntaxa, p, ntrait = len(c["geno"][0]), len(c["genpos"]), len(c["u"][0])
+            ploidy2 = rng.choice([ploidy, ploidy, 1, 2, 3, 4])
+            c["geno2"] = [[[rng.randint(0, 1) for _ in range(p)] for _ in range(ntaxa)] for _ in range(ploidy2)]
+            c["u2"] = canon.enc([[Fraction(rng.choice([1, -1]) * rng.choice([3, 5, 7, 9, 11, 13]) * 2 ** ((i + t) % 5))
+                                  for t in range(ntrait)] for i in range(p)])
+            c["nbest2"] = rng.randint(1, len(c["x_pop"]))
+            c["dh"] = [[[rng.randrange(8), d] for _, d in ch] for ch in c["dh"]]
+            return c
+        return None
 
     def exhaustive(self, tier):
         """thorough tier: every layout of 1-2 chromosomes whose positions are sorted multisets of size 1-3 over
@@ -340,6 +373,8 @@ class C18(Prop):
                 return {"raised": None}
             except (ValueError, IndexError) as e:
                 return {"raised": type(e).__name__}
+        if k == "requery":
+            return self._run_requery(case, genpos, stix_l, spix_l)
         # ---- pipeline
         obs = {}
         nblk = haplo.nhaploblk_chrom(nh, genpos, stix, spix)
@@ -419,6 +454,88 @@ class C18(Prop):
         obs.update(hmats=hmats, finite=finite, guard=guard)
         return obs
 
+    def _run_requery(self, case, genpos, stix_l, spix_l):
+        """mutate-then-requery on ONE problem object per class: build from data set A, evaluate, replace the
+        value matrix (and nbestfndr) through the PUBLIC setters by that of data set B (other effects, other
+        genotypes, possibly another ploidy), evaluate again, put A back, evaluate a third time"""
+        haplo, ohvp, opvp, gbp, ohvsel, PG, GM = _mods()
+        stix, spix = numpy.array(stix_l), numpy.array(spix_l)
+        nh = case["nhaploblk"]
+        nblk = haplo.nhaploblk_chrom(nh, genpos, stix, spix)
+        hbin = haplo.haplobin(nblk, genpos, stix, spix)
+        st, sp, ln = haplo.haplobin_bounds(hbin)
+        obs = dict(nblk=canon.enc(nblk), hbin=canon.enc(hbin), hstix=canon.enc(st), hspix=canon.enc(sp),
+                   hlen=canon.enc(ln), hbs=self._float_bounds(genpos, stix_l, spix_l, [int(v) for v in nblk]))
+        if len(st) != nh or numpy.any(nblk > (spix - stix)):
+            obs["skipped"] = "layout has an empty equal-width bin (D10 is exercised by the pipeline cases)"
+            return obs
+
+        def data(gk, uk):
+            geno = numpy.array(case[gk], dtype="int8")
+            u = numpy.array([[_f(v) for v in r] for r in case[uk]], dtype=float)
+            p = geno.shape[2]
+            pg = PG(mat=geno, vrnt_chrgrp=numpy.repeat(numpy.arange(1, len(stix_l) + 1), spix - stix),
+                    vrnt_phypos=numpy.arange(p), vrnt_genpos=genpos.copy())
+            pg.group_vrnt()
+            gm = GM(beta=numpy.zeros((1, u.shape[1])), u_misc=None, u_a=u.copy(),
+                    trait=numpy.array(["t%d" % i for i in range(u.shape[1])], dtype=object))
+            return pg, gm
+
+        pgA, gmA = data("geno", "u")
+        pgB, gmB = data("geno2", "u2")
+        n = pgA.ntaxa
+        t = gmA.u_a.shape[1]
+        common = dict(decn_space_lower=None, decn_space_upper=None, nobj=t)
+        xp = numpy.array(case["x_pop"], dtype=int)
+        xo = numpy.array(case["x_ohv"], dtype=int)
+        fin = [True]
+
+        def enc(a):
+            e, f = _finite_enc(a)
+            fin[0] &= f
+            return e
+
+        # --- OPV
+        P = opvp.OptimalPopulationValueSubsetSelectionProblem
+        p = P.from_pgmat_gpmod(nhaploblk=nh, pgmat=pgA, gpmod=gmA, ndecn=len(xp), decn_space=numpy.arange(n), **common)
+        HA = p.haplomat.copy()
+        r = {"first": enc(p.latentfn(xp)), "first_eval": enc(p.evalfn(xp)[0])}
+        p.haplomat = P._calc_haplomat(pgB, gmB, nh)
+        r.update(second=enc(p.latentfn(xp)), second_eval=enc(p.evalfn(xp)[0]), hmat2=enc(p.haplomat),
+                 ploidy2=int(p.ploidy), nlatent2=int(p.nlatent))
+        p.haplomat = HA
+        r.update(third=enc(p.latentfn(xp)), hmat3=enc(p.haplomat))
+        obs["opv"] = r
+        # --- OHV
+        Q = ohvp.OptimalHaploidValueSubsetSelectionProblem
+        q = Q.from_pgmat_gpmod(nparent=case["nparent"], nhaploblk=nh, unique_parents=case["unique"], pgmat=pgA,
+                               gpmod=gmA, ndecn=len(xo),
+                               decn_space=numpy.arange(max(1, math.comb(n + case["nparent"], case["nparent"]))), **common)
+        OA = q.ohvmat.copy()
+        r = {"first": enc(q.latentfn(xo)), "xmap": canon.enc(q.decn_space_xmap)}
+        HB = Q._calc_haplomat(pgB, gmB, nh)
+        q.ohvmat = Q._calc_ohvmat(HB.shape[0], HB, q.decn_space_xmap)
+        r.update(second=enc(q.latentfn(xo)), second_eval=enc(q.evalfn(xo)[0]), ohvmat2=enc(q.ohvmat))
+        q.ohvmat = OA
+        r.update(third=enc(q.latentfn(xo)), ohvmat3=enc(q.ohvmat))
+        obs["ohv"] = r
+        # --- GB
+        G = gbp.GenotypeBuilderSubsetSelectionProblem
+        g = G.from_pgmat_gpmod(pgmat=pgA, gpmod=gmA, nhaploblk=nh, nbestfndr=case["nbest"], ndecn=len(xp),
+                               decn_space=numpy.arange(n), **common)
+        GA = g.haplomat.copy()
+        r = {"first": enc(g.latentfn(xp))}
+        g.haplomat = G._calc_haplomat(pgB, gmB, nh)
+        g.nbestfndr = case["nbest2"]
+        r.update(second=enc(g.latentfn(xp)), second_eval=enc(g.evalfn(xp)[0]), hmat2=enc(g.haplomat),
+                 nbest2=int(g.nbestfndr))
+        g.haplomat = GA
+        g.nbestfndr = case["nbest"]
+        r.update(third=enc(g.latentfn(xp)))
+        obs["gb"] = r
+        obs["finite"] = fin[0]
+        return obs
+
     @staticmethod
     def _float_bounds(genpos, stix, spix, nblk):
         """numpy's own boundaries for every chromosome (same call as the code under test), exact"""
@@ -437,6 +554,30 @@ class C18(Prop):
         if k == "reject":
             return [{"op": "c18.nblk", "nhaploblk": case["nhaploblk"], **lay, **_PATCHED}]
         nh = case["nhaploblk"]
+        if k == "requery":
+            reqs = [{"op": "c18.nblk", "nhaploblk": nh, **lay, **_PATCHED},
+                    {"op": "c18.haplobin", "nblk": obs["nblk"], "hbs": obs["hbs"], **lay, **_PATCHED}]
+            if "skipped" in obs:
+                return reqs
+            base = {"nhaploblk": nh, "nparent": case["nparent"], "unique": case["unique"], "x_ohv": case["x_ohv"],
+                    "x_pop": case["x_pop"], **lay}
+            sbase = {"op": "c18.spec", "nblk": obs["nblk"], "hbin": obs["hbin"], "hstix": obs["hstix"],
+                     "hspix": obs["hspix"], "hlen": obs["hlen"], "dh": case["dh"], "xmap": obs["ohv"]["xmap"], **base}
+            reqs += [
+                {"op": "c18.model", "guard": True, "geno": case["geno"], "u": case["u"], "nbest": case["nbest"],
+                 **base, **_PATCHED},
+                {"op": "c18.model", "guard": True, "geno": case["geno2"], "u": case["u2"], "nbest": case["nbest2"],
+                 **base, **_PATCHED},
+                # Spec on the SECOND answers against the NEW data (B) ...
+                {**sbase, "geno": case["geno2"], "u": case["u2"], "hmats": [obs["opv"]["hmat2"], obs["gb"]["hmat2"]],
+                 "ohvmat": obs["ohv"]["ohvmat2"], "opv_latent": obs["opv"]["second"],
+                 "ohv_latent": obs["ohv"]["second"], "gb_latent": obs["gb"]["second"], "nbest": case["nbest2"]},
+                # ... and on the THIRD answers against the data put back (A)
+                {**sbase, "geno": case["geno"], "u": case["u"], "hmats": [obs["opv"]["hmat3"]],
+                 "ohvmat": obs["ohv"]["ohvmat3"], "opv_latent": obs["opv"]["third"],
+                 "ohv_latent": obs["ohv"]["third"], "gb_latent": obs["gb"]["third"], "nbest": case["nbest"]},
+            ]
+            return reqs
         reqs = [{"op": "c18.nblk", "nhaploblk": nh, **lay, **_PATCHED},
                 {"op": "c18.haplobin", "nblk": obs["nblk"], "hbs": obs["hbs"], **lay, **_PATCHED},
                 {"op": "c18.bounds", "hbin": obs["hbin"]},
@@ -446,11 +587,15 @@ class C18(Prop):
         spec = {"op": "c18.spec", "nhaploblk": nh, "nblk": obs["nblk"], "hbin": obs["hbin"],
                 "hstix": obs["hstix"], "hspix": obs["hspix"], "hlen": obs["hlen"],
                 "geno": case["geno"], "u": case["u"], "hmats": list(obs["hmats"].values()), "dh": case["dh"], **lay}
-        for key in ("xmap", "ohvmat", "opv_latent"):
+        for key in ("xmap", "ohvmat", "opv_latent", "ohv_latent", "gb_latent"):
             if key in obs:
                 spec[key] = obs[key]
-        if "opv_latent" in obs:
+        if "opv_latent" in obs or "gb_latent" in obs:
             spec["x_pop"] = case["x_pop"]
+        if "ohv_latent" in obs:
+            spec["x_ohv"] = case["x_ohv"]
+        if "gb_latent" in obs:
+            spec["nbest"] = case["nbest"]
         reqs.append(spec)
         return reqs
 
@@ -530,6 +675,8 @@ class C18(Prop):
             corr = (m.get("error") == "value") == (obs["raised"] is not None)
             return {"corr": corr, "spec": obs["raised"] is not None, "nontrivial": False,
                     "detail": f"reject model={m} impl={obs}"}
+        if k == "requery":
+            return self._judge_requery(case, obs, ans)
         # ---- pipeline
         mn, mb, mbd, mm, sp = ans
         notes = []
@@ -573,9 +720,6 @@ class C18(Prop):
         if obs["guard"]:
             failed.append("guard:" + "+".join(obs["guard"]))
         spec = not failed
-        if _SELFTEST["active"] and model_d10:
-            return {"corr": True, "spec": True, "nontrivial": False, "skipped": True,
-                    "detail": "self-test: case left out (the model predicts the known defect D10 here)"}
         stix, spix = _layout(case)
         nontriv = (case["nhaploblk"] > len(stix) and len(case["geno"][0]) >= 2 and max(case["chr_sizes"]) >= 2)
         return {"corr": corr, "spec": spec, "nontrivial": nontriv, "failed": failed,
@@ -586,6 +730,49 @@ class C18(Prop):
                 "detail": f"spec failed={failed} checked={sp['checked']} nblk={obs['nblk']} hbin={obs['hbin']} "
                           f"blocks={len(obs['hstix'])}/{case['nhaploblk']} guard={obs['guard']} finite={obs['finite']} "
                           + "; ".join(notes)}
+
+    def _judge_requery(self, case, obs, ans):
+        mn, mb = ans[0], ans[1]
+        if "skipped" in obs:
+            return {"corr": True, "spec": True, "nontrivial": False, "detail": "requery: " + obs["skipped"]}
+        mA, mB, sB, sA = ans[2:]
+        robust = "nblk" in mn and canon.dec(mn["margin"]) > Fraction(1, 10 ** 9)
+        faithful = self._faithful(case, obs["hbs"], mb["hbs"])
+        notes, failed = [], []
+        close = lambda a, b: canon.close_enc(a, b, rel=1e-9, abs_=1e-9)
+        # ---- Spec: definitions re-evaluated on the data that is CURRENT at the time of the answer
+        for tag, sp in (("second/new-data", sB), ("third/restored", sA)):
+            failed += [f"{c}[{tag}]" for c in sp["failed"]]
+        if not obs["finite"]:
+            failed.append("finite")
+        for name in ("opv", "ohv", "gb"):
+            # evalfn goes through latentfn (identity transformation, unit weights)
+            if not close(obs[name]["second_eval"], obs[name]["second"]):
+                failed.append(f"evalfn_vs_latentfn[{name}]")
+        if obs["opv"]["ploidy2"] != len(case["geno2"]) or obs["opv"]["nlatent2"] != len(case["u2"][0]):
+            failed.append("ploidy/nlatent after the setter")
+        if obs["gb"]["nbest2"] != case["nbest2"]:
+            failed.append("nbestfndr after the setter")
+        # ---- correspondence with the model: first/third = model(A), second = model(B)
+        corr = True
+        if robust and faithful and "error" not in mA and "error" not in mB:
+            pairs = [("opv", "opv_latent"), ("ohv", "ohv_latent"), ("gb", "gb_latent")]
+            for name, key in pairs:
+                for step, mm in (("first", mA), ("second", mB), ("third", mA)):
+                    if None in mm[key] or not close(mm[key], obs[name][step]):
+                        corr = False
+                        notes.append(f"{name}.{step}: model={mm[key]} impl={obs[name][step]}")
+            if not close(mB["ohvmat"], obs["ohv"]["ohvmat2"]) or not close(mB["hmat"], obs["opv"]["hmat2"]) \
+                    or not close(mB["hmat"], obs["gb"]["hmat2"]) or mB["xmap"] != obs["ohv"]["xmap"]:
+                corr = False
+                notes.append("matrices read back after the setter differ from the model of the new data")
+        else:
+            notes.append(f"exact model not compared (robust={robust} faithful={faithful})")
+        changed = any(not close(obs[nm]["first"], obs[nm]["second"]) for nm in ("opv", "ohv", "gb"))
+        return {"corr": corr, "spec": not failed, "nontrivial": changed, "failed": failed,
+                "detail": f"requery failed={failed} opv={ {k: obs['opv'][k] for k in ('first', 'second', 'third')} } "
+                          f"ohv={ {k: obs['ohv'][k] for k in ('first', 'second', 'third')} } "
+                          f"gb={ {k: obs['gb'][k] for k in ('first', 'second', 'third')} } " + "; ".join(notes[:6])}
 
     @staticmethod
     def _corr_model(mm, obs):
@@ -636,6 +823,10 @@ class C18(Prop):
     # ------------------------------------------------------------------ findings / shrinking
     def signature(self, case, obs, verdict):
         sig = {"kind": case.get("kind"), "site": "haplobin", "cond": "none"}
+        if case.get("kind") == "requery":
+            sig["site"] = "problem-object"
+            sig["failed"] = sorted(set(f.split("[")[0] for f in verdict.get("failed", [])))
+            return sig
         if case.get("kind") != "pipeline" or not isinstance(obs, dict) or "hbs" not in obs:
             return sig
         if verdict.get("empty_bin"):
@@ -650,8 +841,9 @@ class C18(Prop):
         return sig
 
     def shrink(self, case):
-        if case.get("kind") != "pipeline":
+        if case.get("kind") not in ("pipeline", "requery"):
             return
+        rq = case["kind"] == "requery"          # second data set shrinks along with the first
         sizes = case["chr_sizes"]
         p = sum(sizes)
         nchr = len(sizes)
@@ -677,12 +869,17 @@ class C18(Prop):
                 c["genpos"] = case["genpos"][:i] + case["genpos"][i + 1:]
                 c["geno"] = [[g[:i] + g[i + 1:] for g in gm] for gm in case["geno"]]
                 c["u"] = case["u"][:i] + case["u"][i + 1:]
+                if rq:
+                    c["geno2"] = [[g[:i] + g[i + 1:] for g in gm] for gm in case["geno2"]]
+                    c["u2"] = case["u2"][:i] + case["u2"][i + 1:]
                 yield c
             k += s
         # one trait only
         if len(case["u"][0]) > 1:
             c = dict(case)
             c["u"] = [r[:1] for r in case["u"]]
+            if rq:
+                c["u2"] = [r[:1] for r in case["u2"]]
             yield c
         # drop the last taxon
         ntaxa = len(case["geno"][0])
@@ -692,10 +889,17 @@ class C18(Prop):
             nt = ntaxa - 1
             c["x_pop"] = [i for i in case["x_pop"] if i < nt] or [0]
             c["nbest"] = min(case["nbest"], len(c["x_pop"]))
+            if rq:
+                c["geno2"] = [gm[:-1] for gm in case["geno2"]]
+                c["nbest2"] = min(case["nbest2"], len(c["x_pop"]))
             nx = math.comb(nt, case["nparent"]) if case["unique"] else math.comb(nt + case["nparent"] - 1, case["nparent"])
             c["x_ohv"] = [i % nx for i in case["x_ohv"]]
             yield c
-        # one phase less
+        # one phase less (first data set)
+        if rq and len(case["geno2"]) > 1:
+            c = dict(case)
+            c["geno2"] = case["geno2"][:-1]
+            yield c
         if len(case["geno"]) > 1:
             c = dict(case)
             c["geno"] = case["geno"][:-1]
@@ -711,7 +915,6 @@ class C18(Prop):
         def patch(pairs):
             """pairs: [(object, attribute, new value)]"""
             old = [(o, a, o.__dict__[a] if a in getattr(o, "__dict__", {}) else getattr(o, a)) for o, a, _ in pairs]
-            _SELFTEST["active"] = True
             for o, a, v in pairs:
                 setattr(o, a, v)
             try:
@@ -719,7 +922,6 @@ class C18(Prop):
             finally:
                 for o, a, v in old:
                     setattr(o, a, v)
-                _SELFTEST["active"] = False
 
         def everywhere(name, fn):
             return [(m, name, fn) for m in users if hasattr(m, name)]
@@ -824,9 +1026,43 @@ class C18(Prop):
         def opv_mean(self, x, *a, **k):
             return -self.ploidy * self._haplomat[:, x, :, :].max(0).mean(0).sum(0)
 
-        def triudix_diag(n, k):
-            from pybrops.core.util.array import triuix
-            return triuix(n, k)
+        # 6. stale caches behind the public setters (only visible in build / evaluate / assign / re-evaluate)
+        def opv_cached_bestphase(self, x, *a, **k):
+            if "_c18_bp" not in self.__dict__:                      # lazily computed, never invalidated
+                self.__dict__["_c18_bp"] = self._haplomat.max(0)
+            return -self.ploidy * self.__dict__["_c18_bp"][x, :, :].max(0).sum(0)
+
+        def opv_memo_by_x(self, x, *a, **k):
+            memo = self.__dict__.setdefault("_c18_memo", {})
+            key = tuple(int(v) for v in x)
+            if key not in memo:
+                memo[key] = -self.ploidy * self._haplomat[:, x, :, :].max((0, 1)).sum(0)
+            return memo[key]
+
+        stale_ploidy = property(lambda self: self.__dict__.setdefault("_c18_pl", self._haplomat.shape[0]))
+
+        def _set_once(self, value):
+            if "_haplomat" not in self.__dict__:                     # later assignments are silently dropped
+                self._haplomat = value
+        haplomat_set_once = property(lambda self: self._haplomat, _set_once)
+
+        def ohv_cached_ohvmat(self, x, *a, **k):
+            if "_c18_om" not in self.__dict__:
+                self.__dict__["_c18_om"] = self._ohvmat.copy()
+            return -(1.0 / len(x)) * (self.__dict__["_c18_om"][x, :].sum(0))
+
+        def gb_cached(which):
+            def latentfn(self, x, *a, **k):
+                d = self.__dict__
+                if "_c18_bp" not in d:
+                    d["_c18_bp"] = self._haplomat.max(0)
+                    d["_c18_nb"] = self.nbestfndr
+                bp = d["_c18_bp"] if which == "bestphase" else self._haplomat.max(0)
+                nb = d["_c18_nb"] if which == "nbestfndr" else self.nbestfndr
+                best = bp[x, :, :].copy()
+                best.sort(0)
+                return -(self.ploidy / nb) * best[len(x) - nb:len(x), :, :].sum((0, 1))
+            return latentfn
 
         return [
             ("apportion_one_iteration_short", lambda: patch(everywhere("nhaploblk_chrom", nblk_short))),
@@ -841,6 +1077,14 @@ class C18(Prop):
             ("ohvmat_first_parent_only", lambda: patch([(mix_ohv, "_calc_ohvmat", staticmethod(ohvmat_phase_only))])),
             ("ohvmat_without_ploidy", lambda: patch([(mix_ohv, "_calc_ohvmat", staticmethod(ohvmat_no_ploidy))])),
             ("opv_mean_over_parents", lambda: patch([(OPV, "latentfn", opv_mean)])),
+            ("stale[opv: cached best-phase values]", lambda: patch([(OPV, "latentfn", opv_cached_bestphase)])),
+            ("stale[opv: latentfn memoised by x]", lambda: patch([(OPV, "latentfn", opv_memo_by_x)])),
+            ("stale[opv: cached ploidy]", lambda: patch([(mix_opv, "ploidy", stale_ploidy)])),
+            ("stale[opv: haplomat setter ignored after construction]",
+             lambda: patch([(mix_opv, "haplomat", haplomat_set_once)])),
+            ("stale[ohv: cached ohvmat]", lambda: patch([(OHV, "latentfn", ohv_cached_ohvmat)])),
+            ("stale[gb: cached best-phase values]", lambda: patch([(GB, "latentfn", gb_cached("bestphase"))])),
+            ("stale[gb: cached nbestfndr]", lambda: patch([(GB, "latentfn", gb_cached("nbestfndr"))])),
         ]
 
 
